@@ -39,6 +39,7 @@ RNG = 'starlark/src/values/types/range/range_type.rs'
 EVALRS = 'starlark/src/eval.rs'
 CALLRS = 'starlark_syntax/src/syntax/call.rs'
 COMPR = 'starlark/src/eval/compiler/compr.rs'
+BCSTMT = 'starlark/src/eval/bc/compiler/stmt.rs'
 RNGG = 'starlark/src/values/types/range/globals.rs'
 
 # (unit, file, old, new, expected obligation substring)
@@ -150,6 +151,8 @@ MUTANTS = [
     ('bind', PSP, '        if args.pos().len() == (self.indices.num_positional as usize)\n            && args.pos().len() == self.param_kinds.len()', '        if args.pos().len() <= (self.indices.num_positional as usize)\n            && args.pos().len() == self.param_kinds.len()', 'collect_inline_impl'),
     ('bind', PSP, '            && args.pos().len() == self.param_kinds.len()\n', '', 'collect_inline_impl'),
     ('bind', PSP, '            return Ok(());\n        }\n\n        self.collect_slow(args, slots, heap)', '            return self.collect_slow(args, slots, heap);\n        }\n\n        self.collect_slow(args, slots, heap)', 'C08.bind.fast_path'),
+    ('bcret', BCSTMT, '        bc.write_iter_stop(span);\n        if compiler.has_return_type {\n            expr.write_bc_cb(bc, |slot, bc| {\n                bc.write_instr::<InstrReturnCheckType>(span, slot);\n            });\n        } else if let Some(value) = expr.as_value() {', '        if compiler.has_return_type {\n            expr.write_bc_cb(bc, |slot, bc| {\n                bc.write_instr::<InstrReturnCheckType>(span, slot);\n            });\n            return;\n        }\n        bc.write_iter_stop(span);\n        if let Some(value) = expr.as_value() {', 'write_return'),
+    ('bcret', BCSTMT, '        bc.write_iter_stop(span);\n        if compiler.has_return_type {', '        if compiler.has_return_type {', 'write_return'),
     ('calls', INSTR, '        eval.with_call_stack(self.to_value(), Some(location), |eval| {\n            self.invoke(args, eval)\n        })', '        self.invoke(args, eval)', 'bc_invoke'),
     ('calls', 'starlark/src/values/layout/value.rs', '        eval.with_call_stack(self, location, |eval| {\n            self.get_ref_full().invoke(args, eval)\n        })', '        self.get_ref_full().invoke(args, eval)', 'invoke_with_loc'),
     ('strindex', STRT, 'let ind = CharIndex(i.unsigned_abs() as usize);', 'let ind = CharIndex((-i) as usize);', 'at'),
